@@ -70,3 +70,17 @@ def ordered_pass(items: set[str], related: dict[str, set[str]]) -> set[str]:
         excluded.update(related[item])
         excluded.discard(item)
     return excluded
+
+
+def joined_after_inplace_sort(names: set[str]) -> str:
+    lines = list({n.strip() for n in names})
+    lines.sort()
+    return "\n".join(lines)
+
+
+def joined_after_copy_of_iterable(names) -> str:
+    return ", ".join(tuple(_as_set(names)))
+
+
+def _as_set(names) -> set[str]:
+    return set(names)
